@@ -44,9 +44,15 @@ impl TryFrom<WirePatchRequest> for PatchRequest {
         }
 
         Ok(Self {
-            log_type: value.log_type.unwrap().try_into()?,
+            log_type: value
+                .log_type
+                .ok_or_else(crate::bindings::missing_field)?
+                .try_into()?,
             commit,
-            proof: value.proof.unwrap().try_into()?,
+            proof: value
+                .proof
+                .ok_or_else(crate::bindings::missing_field)?
+                .try_into()?,
             patch,
         })
     }
@@ -79,7 +85,10 @@ impl TryFrom<WirePatchResponse> for PatchResponse {
 
     fn try_from(value: WirePatchResponse) -> Result<Self> {
         Ok(Self {
-            checked_patch: value.checked_patch.unwrap().try_into()?,
+            checked_patch: value
+                .checked_patch
+                .ok_or_else(crate::bindings::missing_field)?
+                .try_into()?,
         })
     }
 }
